@@ -6,7 +6,7 @@
 (* The state is just the index of the line; the lines are independent, so  *)
 (* the index advances in Stride interleaved chains and TLC's workers judge *)
 (* lines in parallel.  One line is printed per judged trace line:          *)
-(*    <<"V", index, verdict, clause, why>>                                 *)
+(*    "V|index|verdict|clause|why"                                         *)
 (* NoViolation / SpecSane are the invariants (TLC runs with -continue so   *)
 (* that every line is judged even after a violation).                      *)
 (***************************************************************************)
@@ -27,7 +27,7 @@ Spec == Init /\ [][Next]_i
 
 V == Verdict(Trace[i], Known)
 
-Judged == PrintT(<<"V", i, V.v, V.clause, V.why>>)
+Judged == PrintT("V|" \o ToString(i) \o "|" \o V.v \o "|" \o V.clause \o "|" \o V.why)
 NoViolation == V.v # "violation"
 SpecSane == V.v # "specfail"
 =============================================================================
